@@ -35,7 +35,7 @@ echo "== $n refactorings, $runs check runs, $bad refactorings with at least one 
   echo "sub-agent that saw only the property text, keeps the 77 baseline tests passing and prints the same digest with and without"
   echo "the change. Any non-zero exit of a check on such a tree is a false alarm (rc=1) or an analysis error (rc=2)."
   echo
-  echo "Last run (tools/benign_sample.sh, SAMPLE=${SAMPLE:-6}): $n refactorings, $runs check runs - each refactoring against the check of its own"
+  echo "Last run (tools/benign_sample.sh, SAMPLE=${SAMPLE:-6}${OFFSET:+, OFFSET=$OFFSET}): $n refactorings, $runs check runs - each refactoring against the check of its own"
   echo "property and against checks that read the modules it touches (sampled by rotation, see tools/benign_plan.py);"
   echo "$bad refactorings with at least one non-zero check.  The full cross product is tools/benign_matrix.sh (its history is in DESIGN.md section 5)."
   echo
@@ -48,5 +48,5 @@ echo "== $n refactorings, $runs check runs, $bad refactorings with at least one 
   echo '```'
   cat "$OUT.plan"
   echo '```'
-} > /verif/selftest/benign/RESULTS.md
+} > "/verif/selftest/benign/RESULTS${OFFSET:+-offset$OFFSET}.md"
 rm -rf "$OUT" "$OUT.plan"
